@@ -1244,10 +1244,8 @@ func (m c19) Run(c *core.Ctx) {
 	}
 	np := len(env.pool)
 	thorough := c.Thorough()
-	if thorough {
-		for _, cl := range cat {
-			h.probeArity(cl)
-		}
+	for _, cl := range cat {
+		h.probeArity(cl)
 	}
 
 	idx := 0
@@ -1274,6 +1272,30 @@ func (m c19) Run(c *core.Ctx) {
 		}
 	}
 	if !thorough {
+		// quick: length 3 over one representative value per type (first pool entry of each type), for the callables
+		// whose arity admits 3 arguments - every combination of argument TYPES is seen, as error paths depend on them
+		var reps []int
+		seenTyp := map[string]bool{}
+		for i := 0; i < np; i++ {
+			if t := h.env.pool[i].typ; !seenTyp[t] {
+				seenTyp[t] = true
+				reps = append(reps, i)
+			}
+		}
+		for _, cl := range cat {
+			if !cl.accept[3] {
+				continue
+			}
+			for _, i := range reps {
+				for _, j := range reps {
+					for _, k := range reps {
+						if mine() {
+							h.runTuple(cl, []int{i, j, k})
+						}
+					}
+				}
+			}
+		}
 		return
 	}
 	// length 3: exhaustive where the arity admits it, sampled otherwise
